@@ -14,13 +14,6 @@ ASSUMPTIONS = ["'freshly built identical language' = new TypeOperator, Operator 
 TRUSTED = ["harness/exprgen.py (canonical dump)"]
 
 
-def fresh(spec, opdecls):
-    ops = spec.build()
-    aliases = {}
-    lang, operators = X.build_typed_language(spec, ops, opdecls)
-    return ops, lang, operators
-
-
 def gen_history(rng, spec, opdecls, pool, bad, n):
     """history as data, replayable on any fresh copy of the language"""
     h = []
@@ -100,6 +93,35 @@ def play(step, spec, ops, lang, operators, ninputs):
     return "?"
 
 
+PLAIN = {}
+
+
+def fresh(spec, opdecls):
+    ops = spec.build()
+    lang, operators = X.build_typed_language(spec, ops, opdecls)
+    plain = PLAIN.get(id(opdecls))
+    if plain:
+        # an operator declared with a plain (non-schematic) signature that holds a wildcard: one variable made at definition time
+        from transforge.expr import Operator
+        from transforge import type as T
+        name, src = plain
+        op = Operator(type=eval(src, {"OPS": ops, "_": T._}), name=name)
+        lang.add(op, name)
+        operators[name] = op
+    return ops, lang, operators
+
+
+def validates(spec, opdecls):
+    from transforge.expr import DeclarationError
+    ops, lang, operators = fresh(spec, opdecls)
+    try:
+        # the operator's own validation (the other, generated operators may fail validation for unrelated reasons)
+        operators["size"].validate()
+        return True
+    except (DeclarationError, ValueError):
+        return False
+
+
 def run_history(spec, opdecls, history, probe, ninputs):
     ops, lang, operators = fresh(spec, opdecls)
     outcomes = [play(s, spec, ops, lang, operators, ninputs) for s in history]
@@ -110,7 +132,7 @@ def run_history(spec, opdecls, history, probe, ninputs):
 def run(ctx):
     rng = ctx.rng
     nlang = 8 if ctx.tier == "quick" else 40
-    nhist = 40 if ctx.tier == "quick" else 120
+    nhist = 100 if ctx.tier == "quick" else 200
     for li in range(nlang):
         spec = G.gen_lang(rng, max_base=5, max_ops=2, max_arity=2)
         opdecls = X.gen_operators(rng, spec, allow_prod=rng.random() < 0.3)
@@ -128,6 +150,7 @@ def run(ctx):
         bad = [PG.mutate(rng, t) for t in pool[:10]] + [X.tree_text(("app", ("op", rng.choice(opdecls)[0]), ("op", rng.choice(opdecls)[0]))) for _ in range(5)]
         if not pool:
             continue
+        plain_cases(ctx, li, spec, opdecls, rng)
         for k in range(nhist):
             history = gen_history(rng, spec, opdecls, pool, bad, rng.randint(3, 30))
             probe = rng.choice(pool + bad[:3])
@@ -144,6 +167,38 @@ def run(ctx):
                 ctx.fail(f"probe {probe!r} after a history of {len(small)} step(s) {small} gives {got}; in a fresh language {ref}",
                     {"check": "history-dependence", "steps": sorted({s[0] for s in small})},
                     {"lang": spec.to_json(), "opdecls": [[n, s] for n, s in opdecls], "history": small, "probe": probe, "inputs": ninputs})
+
+
+def plain_cases(ctx, li, spec, opdecls, rng):
+    """an operator whose signature is a plain type holding a wildcard (`R(_) ** N`): `validate()` must reject it (the wildcard is ONE
+    variable made at definition time, every use would share it); if the language validates, no history may change what a later use means"""
+    comps = spec.compounds(builtin=False)
+    bases = spec.bases()
+    if not comps or len(bases) < 2:
+        return
+    c = rng.choice(comps)
+    src = "OPS[%d](%s) ** OPS[%d]" % (c, ", ".join("_" if i == 0 else "OPS[%d]" % rng.choice(bases) for i in range(spec.arity(c))), rng.choice(bases))
+    decls = list(opdecls)
+    PLAIN[id(decls)] = ("size", src)
+    try:
+        ok = validates(spec, decls)
+    except Exception:  # noqa
+        PLAIN.pop(id(decls), None)
+        return
+    ctx.count("plain_signature_" + ("validates" if ok else "rejected"))
+    ctx.evaluations += 1
+    if ok:
+        a, b = bases[0], bases[1]
+        mk = lambda t: "size (- : %s(%s))" % (spec.name(c), ", ".join(spec.name(t) if i == 0 else "_" for i in range(spec.arity(c))))
+        history = [("parse", mk(a), True)]
+        probe = mk(b)
+        ref, _ = run_history(spec, decls, [], probe, 0)
+        got, outcomes = run_history(spec, decls, history, probe, 0)
+        if got != ref:
+            ctx.fail(f"language validates with `size : {src}`; probe {probe!r} after {history} gives {got}; in a fresh language {ref}",
+                {"check": "history-dependence", "steps": ["parse"], "plain_signature": True},
+                {"lang": spec.to_json(), "opdecls": [[n, s] for n, s in opdecls], "plain": ["size", src], "history": history, "probe": probe, "inputs": 0})
+    PLAIN.pop(id(decls), None)
 
 
 def shrink(spec, opdecls, history, probe, ninputs, ref):
@@ -166,6 +221,8 @@ def replay(ctx, payload):
     inp = payload["input"]
     spec = G.LangSpec([(n, v, p) for n, v, p in inp["lang"]])
     opdecls = [(n, fix_schema(s)) for n, s in inp["opdecls"]]
+    if inp.get("plain"):
+        PLAIN[id(opdecls)] = tuple(inp["plain"])
     history = [tuple(tuple_deep(x) for x in s) for s in inp["history"]]
     ref, _ = run_history(spec, opdecls, [], inp["probe"], inp["inputs"])
     got, outcomes = run_history(spec, opdecls, history, inp["probe"], inp["inputs"])
